@@ -1,7 +1,977 @@
-//! C26 — not implemented yet.
+//! C26 — the C search entry point stays within the caller's buffer.
+//! Engine: frontmc --ffi (isolated). For a fixed small index, every (query, limit, cursor, aggs)
+//! combination is called through `searchlite_ffi::searchlite_search` with EVERY buffer capacity
+//! 0..=len(full)+16, plus null / invalid argument families. The output buffer lives between two
+//! 64-byte canary zones inside an mmap'ed region whose last page (right behind the trailing
+//! canary) is PROT_NONE, so an overrun of up to 64 bytes trips the canary and anything longer
+//! faults. Every family runs in a forked child that reports through a pipe; a child killed by a
+//! signal is a violation attributed to the call it had announced last.
+//!
+//! Contract demanded (searchlite-ffi/src/lib.rs `# Safety` comments + searchlite.h + README):
+//! handle from searchlite_index_open (or null), query a C string (or null), cursor null or a C
+//! string produced by a previous response, aggs_json null or `aggs_len` readable bytes,
+//! out_json_buf null or `buf_cap` writable bytes. Inputs outside that contract (cursor strings
+//! never produced by a response, buf_cap larger than the real buffer, dangling handles) are not
+//! in the alphabet.
+
+use std::collections::{BTreeMap, BTreeSet};
+use std::ffi::CString;
+use std::os::raw::c_char;
+use std::path::{Path, PathBuf};
+
+use serde_json::{json, Value};
+
+use searchlite_core::api::types::{IndexOptions, StorageType};
+use searchlite_core::api::Index;
+use searchlite_ffi::{searchlite_add_json, searchlite_commit, searchlite_index_close, searchlite_index_open, searchlite_search, IndexHandle};
+use vcore::ev::Reporter;
+use vcore::world::{schema, Scratch};
+
 use crate::Ctx;
 
-pub fn run(_ctx: &Ctx) -> i32 {
-  eprintln!("C26: check not implemented");
-  2
+const CANARY: usize = 64;
+const BIG: usize = 1 << 17;
+const MARGIN: usize = 16;
+
+// ---------------------------------------------------------------------------------------------
+// Worlds
+
+fn world_schema() -> Value {
+  json!({"doc_id_field": "_id",
+    "text_fields": [{"name": "body", "analyzer": "default", "stored": true, "indexed": true}],
+    "keyword_fields": [{"name": "kw", "stored": true, "indexed": true, "fast": true}],
+    "numeric_fields": [{"name": "n", "i64": true, "fast": true, "stored": true}]})
+}
+
+fn world_docs(which: usize) -> Vec<Value> {
+  match which {
+    // multi-byte text so that truncation points fall inside UTF-8 sequences and JSON escapes
+    0 => vec![
+      json!({"_id": "A", "body": "a b", "kw": "x", "n": 1}),
+      json!({"_id": "B", "body": "a caf\u{e9} \u{65e5}\u{672c} \"q\" \\ \n", "kw": ["x", "y"], "n": 2}),
+      json!({"_id": "C", "body": "b a a", "kw": "y"}),
+    ],
+    // a response of several pages of memory: the buffer and its capacities cross page boundaries
+    2 => (0..12)
+      .map(|i| json!({"_id": format!("big{i}"), "body": format!("a {} caf\u{e9} \u{65e5}\u{672c} end{i}", "lorem ipsum b ".repeat(40 + i)), "kw": if i % 3 == 0 { "x" } else { "y" }, "n": i}))
+      .collect(),
+    _ => (0..7)
+      .map(|i| json!({"_id": format!("d{i}"), "body": format!("a {} \u{1F600} z{}", "b ".repeat(i), "\u{e9}".repeat(i * 3)), "kw": if i % 2 == 0 { "x" } else { "y" }, "n": i}))
+      .collect(),
+  }
+}
+
+fn ffi_opts(path: &Path) -> IndexOptions {
+  let mut o = vcore::world::opts(path, StorageType::Filesystem);
+  o.bm25_k1 = 0.9;
+  o.bm25_b = 0.4;
+  o
+}
+
+/// Create the index directory (schema via the library, documents via the FFI).
+fn prepare_world(dir: &Path, which: usize) -> Result<(), String> {
+  Index::create(dir, schema(world_schema()), ffi_opts(dir)).map_err(|e| format!("create: {e:#}"))?;
+  let p = CString::new(dir.to_string_lossy().to_string()).unwrap();
+  unsafe {
+    let h = searchlite_index_open(p.as_ptr(), false);
+    if h.is_null() {
+      return Err("searchlite_index_open returned null for a freshly created index".into());
+    }
+    for d in world_docs(which) {
+      let s = CString::new(d.to_string()).unwrap();
+      let rc = searchlite_add_json(h, s.as_ptr(), s.as_bytes().len());
+      if rc < 0 {
+        searchlite_index_close(h);
+        return Err(format!("searchlite_add_json({d}) = {rc}"));
+      }
+    }
+    if searchlite_commit(h) != 0 {
+      searchlite_index_close(h);
+      return Err("searchlite_commit != 0".into());
+    }
+    searchlite_index_close(h);
+  }
+  Ok(())
+}
+
+// ---------------------------------------------------------------------------------------------
+// Calls
+
+#[derive(Debug, Clone, PartialEq)]
+enum CursorSpec {
+  Null,
+  /// next_cursor after walking this many pages of (same query, same limit, no aggs)
+  Pages(usize),
+  /// next_cursor of the response to (query, limit 1): a cursor "produced by a previous response"
+  /// that belongs to another request
+  Other(String),
+}
+
+#[derive(Debug, Clone, PartialEq)]
+enum AggsLen {
+  Full,
+  Zero,
+  Short(usize),
+}
+
+#[derive(Debug, Clone)]
+struct Combo {
+  name: &'static str,
+  /// query bytes (no interior NUL); None = null pointer
+  query: Option<Vec<u8>>,
+  limit: usize,
+  cursor: CursorSpec,
+  /// aggs bytes; None = null pointer
+  aggs: Option<String>,
+  aggs_len: AggsLen,
+  /// aggs_len passed with a null aggs pointer
+  null_aggs_len: usize,
+  null_handle: bool,
+  null_out: bool,
+  /// what the documented contract says about the outcome with a large buffer
+  expect: Expect,
+}
+
+#[derive(Debug, Clone, Copy, PartialEq)]
+enum Expect {
+  /// valid arguments: a JSON document with a `hits` array
+  Ok,
+  /// null / invalid arguments: status 0, nothing written outside the buffer
+  Zero,
+  /// contract is silent on success vs. error (e.g. foreign cursor): only buffer safety
+  Any,
+}
+
+impl Combo {
+  fn new(name: &'static str, query: &str, limit: usize) -> Combo {
+    Combo { name, query: Some(query.as_bytes().to_vec()), limit, cursor: CursorSpec::Null, aggs: None, aggs_len: AggsLen::Full, null_aggs_len: 0, null_handle: false, null_out: false, expect: Expect::Ok }
+  }
+  fn cursor(mut self, c: CursorSpec) -> Combo {
+    self.cursor = c;
+    self
+  }
+  fn aggs(mut self, a: &str) -> Combo {
+    self.aggs = Some(a.to_string());
+    self
+  }
+  fn aggs_len(mut self, l: AggsLen) -> Combo {
+    self.aggs_len = l;
+    self
+  }
+  fn expect(mut self, e: Expect) -> Combo {
+    self.expect = e;
+    self
+  }
+  fn to_json(&self) -> Value {
+    json!({
+      "name": self.name,
+      "query_bytes": self.query,
+      "query_lossy": self.query.as_ref().map(|q| String::from_utf8_lossy(q).to_string()),
+      "limit": self.limit,
+      "cursor": match &self.cursor { CursorSpec::Null => json!(null), CursorSpec::Pages(n) => json!({"pages": n}), CursorSpec::Other(q) => json!({"other": q}) },
+      "aggs": self.aggs,
+      "aggs_len": match self.aggs_len { AggsLen::Full => json!("full"), AggsLen::Zero => json!(0), AggsLen::Short(n) => json!(n) },
+      "null_aggs_len": self.null_aggs_len,
+      "null_handle": self.null_handle,
+      "null_out": self.null_out,
+      "expect": match self.expect { Expect::Ok => "ok", Expect::Zero => "zero", Expect::Any => "any" },
+    })
+  }
+  fn from_json(v: &Value) -> Combo {
+    Combo {
+      name: "replay",
+      query: v["query_bytes"].as_array().map(|a| a.iter().map(|b| b.as_u64().unwrap() as u8).collect()),
+      limit: v["limit"].as_u64().unwrap_or(0) as usize,
+      cursor: match &v["cursor"] {
+        Value::Null => CursorSpec::Null,
+        o if o["pages"].is_u64() => CursorSpec::Pages(o["pages"].as_u64().unwrap() as usize),
+        o => CursorSpec::Other(o["other"].as_str().unwrap_or("").to_string()),
+      },
+      aggs: v["aggs"].as_str().map(|s| s.to_string()),
+      aggs_len: match &v["aggs_len"] {
+        Value::String(_) => AggsLen::Full,
+        n if n.as_u64() == Some(0) => AggsLen::Zero,
+        n => AggsLen::Short(n.as_u64().unwrap_or(0) as usize),
+      },
+      null_aggs_len: v["null_aggs_len"].as_u64().unwrap_or(0) as usize,
+      null_handle: v["null_handle"].as_bool().unwrap_or(false),
+      null_out: v["null_out"].as_bool().unwrap_or(false),
+      expect: match v["expect"].as_str() {
+        Some("ok") => Expect::Ok,
+        Some("zero") => Expect::Zero,
+        _ => Expect::Any,
+      },
+    }
+  }
+}
+
+const AGGS_TERMS: &str = r#"{"k":{"type":"terms","field":"kw","size":5}}"#;
+const AGGS_TWO: &str = r#"{"k":{"type":"terms","field":"kw"},"s":{"type":"stats","field":"n"}}"#;
+
+fn combos(thorough: bool) -> Vec<Combo> {
+  let mut v = vec![
+    // the 8 (query, cursor, aggs) combinations of the quick tier
+    Combo::new("qs", "a", 10),
+    Combo::new("qs-none", "zzz", 10),
+    Combo::new("node-match-all", r#"{"type":"match_all"}"#, 10),
+    Combo::new("qs-page1", "a", 1),
+    Combo::new("qs-page2", "a", 1).cursor(CursorSpec::Pages(1)),
+    Combo::new("qs-aggs", "a", 10).aggs(AGGS_TERMS),
+    Combo::new("page2-aggs", r#"{"type":"match_all"}"#, 2).cursor(CursorSpec::Pages(1)).aggs(AGGS_TWO),
+    Combo::new("limit0-aggs", "a", 0).aggs(AGGS_TWO).expect(Expect::Any),
+    // limit 0 without aggregations
+    Combo::new("limit0", "a", 0).expect(Expect::Any),
+    // cursor produced by a response to another request
+    Combo::new("foreign-cursor", "b", 2).cursor(CursorSpec::Other("a".into())).expect(Expect::Any),
+    // aggs_len variants
+    Combo::new("aggs-len0", "a", 10).aggs(AGGS_TERMS).aggs_len(AggsLen::Zero),
+    Combo::new("aggs-short1", "a", 10).aggs(AGGS_TERMS).aggs_len(AggsLen::Short(1)).expect(Expect::Zero),
+    Combo::new("aggs-short-half", "a", 10).aggs(AGGS_TERMS).aggs_len(AggsLen::Short(AGGS_TERMS.len() / 2)).expect(Expect::Zero),
+    Combo::new("aggs-short-last", "a", 10).aggs(AGGS_TERMS).aggs_len(AggsLen::Short(AGGS_TERMS.len() - 1)).expect(Expect::Zero),
+    Combo::new("aggs-invalid", "a", 10).aggs("not valid json").expect(Expect::Zero),
+    Combo::new("aggs-unknown-field", "a", 10).aggs(r#"{"k":{"type":"terms","field":"nope"}}"#).expect(Expect::Any),
+  ];
+  // null in each pointer argument
+  let mut c = Combo::new("null-handle", "a", 10).expect(Expect::Zero);
+  c.null_handle = true;
+  v.push(c);
+  let mut c = Combo::new("null-query", "a", 10).expect(Expect::Zero);
+  c.query = None;
+  v.push(c);
+  let mut c = Combo::new("null-out", "a", 10).expect(Expect::Zero);
+  c.null_out = true;
+  v.push(c);
+  // null cursor is the documented "no cursor"; null aggs with a non-zero length must not be read
+  let mut c = Combo::new("null-aggs-len7", "a", 10);
+  c.null_aggs_len = 7;
+  v.push(c);
+  let mut c = Combo::new("null-everything", "a", 10).expect(Expect::Zero);
+  c.null_handle = true;
+  c.query = None;
+  c.null_out = true;
+  v.push(c);
+  if thorough {
+    v.extend(vec![
+      Combo::new("qs-two-terms", "a b", 10),
+      Combo::new("qs-field", "body:b", 10),
+      Combo::new("qs-negation", "a -b", 10),
+      Combo::new("qs-phrase", "\"a b\"", 10),
+      Combo::new("qs-empty", "", 10).expect(Expect::Any),
+      Combo::new("qs-unicode", "caf\u{e9}", 10).expect(Expect::Any),
+      Combo::new("node-term", r#"{"type":"term","field":"body","value":"b"}"#, 10),
+      Combo::new("node-bool", r#"{"type":"bool","must":[{"type":"term","field":"body","value":"a"}],"must_not":[{"type":"term","field":"body","value":"b"}]}"#, 10),
+      Combo::new("node-unknown-field", r#"{"type":"term","field":"nope","value":"b"}"#, 10).expect(Expect::Any),
+      Combo::new("json-not-a-node", r#"{"type":"nope"}"#, 10).expect(Expect::Any),
+      Combo::new("qs-page3", r#"{"type":"match_all"}"#, 1).cursor(CursorSpec::Pages(2)),
+      Combo::new("limit-huge", "a", usize::MAX).expect(Expect::Any),
+      Combo::new("limit-100k", "a", 100_000).expect(Expect::Any),
+      Combo::new("aggs-empty-object", "a", 10).aggs("{}"),
+      Combo::new("aggs-array", "a", 10).aggs("[]").expect(Expect::Zero),
+      Combo::new("aggs-nested", "a", 10).aggs(r#"{"k":{"type":"terms","field":"kw","aggs":{"s":{"type":"stats","field":"n"},"t":{"type":"top_hits","size":2}}}}"#),
+      Combo::new("aggs-len0-invalid", "a", 10).aggs("not valid json").aggs_len(AggsLen::Zero),
+    ]);
+    let mut c = Combo::new("query-invalid-utf8", "a", 10).expect(Expect::Any);
+    c.query = Some(vec![0xff, 0xfe, b' ', b'a']);
+    v.push(c);
+    let mut c = Combo::new("aggs-invalid-utf8", "a", 10).aggs(AGGS_TERMS).expect(Expect::Zero);
+    c.aggs = Some(String::from_utf8_lossy(&[b'{', 0xc3]).to_string());
+    v.push(c);
+    // every proper prefix length of the aggregation JSON
+    for n in 2..AGGS_TWO.len() {
+      v.push(Combo::new("aggs-prefix", "a", 10).aggs(AGGS_TWO).aggs_len(AggsLen::Short(n)).expect(Expect::Zero));
+    }
+  }
+  v
+}
+
+// ---------------------------------------------------------------------------------------------
+// Guarded buffer
+
+struct Guarded {
+  base: *mut u8,
+  map_len: usize,
+  /// start of the leading canary
+  lead: *mut u8,
+  cap: usize,
+}
+
+fn page() -> usize {
+  unsafe { libc::sysconf(libc::_SC_PAGESIZE) as usize }
+}
+
+impl Guarded {
+  /// [PROT_NONE page][padding][canary 64][buffer cap][canary 64][PROT_NONE page]
+  fn new(cap: usize) -> Guarded {
+    let pg = page();
+    let inner = (CANARY * 2 + cap).div_ceil(pg) * pg;
+    let map_len = inner + 2 * pg;
+    unsafe {
+      let base = libc::mmap(std::ptr::null_mut(), map_len, libc::PROT_READ | libc::PROT_WRITE, libc::MAP_PRIVATE | libc::MAP_ANONYMOUS, -1, 0);
+      if base == libc::MAP_FAILED {
+        libc::_exit(97);
+      }
+      let base = base as *mut u8;
+      if libc::mprotect(base as *mut _, pg, libc::PROT_NONE) != 0 || libc::mprotect(base.add(pg + inner) as *mut _, pg, libc::PROT_NONE) != 0 {
+        libc::_exit(97);
+      }
+      let lead = base.add(pg + inner - (CANARY * 2 + cap));
+      std::ptr::write_bytes(lead, 0xC5, CANARY);
+      std::ptr::write_bytes(lead.add(CANARY), 0xA7, cap);
+      std::ptr::write_bytes(lead.add(CANARY + cap), 0x5C, CANARY);
+      Guarded { base, map_len, lead, cap }
+    }
+  }
+  fn buf(&self) -> *mut u8 {
+    unsafe { self.lead.add(CANARY) }
+  }
+  fn canaries_intact(&self) -> Result<(), String> {
+    unsafe {
+      let a = std::slice::from_raw_parts(self.lead, CANARY);
+      let b = std::slice::from_raw_parts(self.lead.add(CANARY + self.cap), CANARY);
+      if let Some(i) = a.iter().position(|x| *x != 0xC5) {
+        return Err(format!("leading canary byte {} (buffer offset -{}) overwritten with {:#04x}", i, CANARY - i, a[i]));
+      }
+      if let Some(i) = b.iter().position(|x| *x != 0x5C) {
+        return Err(format!("trailing canary byte {} (buffer offset buf_cap+{}) overwritten with {:#04x}", i, i, b[i]));
+      }
+    }
+    Ok(())
+  }
+  fn bytes(&self) -> &[u8] {
+    unsafe { std::slice::from_raw_parts(self.buf(), self.cap) }
+  }
+}
+
+impl Drop for Guarded {
+  fn drop(&mut self) {
+    unsafe {
+      libc::munmap(self.base as *mut _, self.map_len);
+    }
+  }
+}
+
+// ---------------------------------------------------------------------------------------------
+// Child side
+
+struct Resolved {
+  query: Option<CString>,
+  cursor: Option<CString>,
+  aggs: Option<Vec<u8>>,
+  aggs_len: usize,
+}
+
+unsafe fn raw_search(h: *mut IndexHandle, query: &[u8], limit: usize, cursor: Option<&CString>) -> Option<Value> {
+  let q = CString::new(query.to_vec()).ok()?;
+  let mut buf = vec![0u8; BIG];
+  let n = searchlite_search(h, q.as_ptr(), limit, cursor.map(|c| c.as_ptr()).unwrap_or(std::ptr::null()), std::ptr::null(), 0, buf.as_mut_ptr() as *mut c_char, buf.len());
+  if n == 0 {
+    return None;
+  }
+  serde_json::from_slice(&buf[..n]).ok()
+}
+
+/// Cursor after `pages` pages of (query, limit).
+unsafe fn cursor_after(h: *mut IndexHandle, query: &[u8], limit: usize, pages: usize) -> Result<CString, String> {
+  let mut cur: Option<CString> = None;
+  for p in 0..pages {
+    let v = raw_search(h, query, limit, cur.as_ref()).ok_or_else(|| format!("setup: page {p} of the cursor walk returned 0"))?;
+    let c = v["next_cursor"].as_str().ok_or_else(|| format!("setup: page {p} has no next_cursor"))?;
+    cur = Some(CString::new(c).unwrap());
+  }
+  cur.ok_or_else(|| "setup: no pages".to_string())
+}
+
+unsafe fn resolve(h: *mut IndexHandle, c: &Combo) -> Result<Resolved, String> {
+  let query = c.query.as_ref().map(|q| CString::new(q.clone()).unwrap());
+  let cursor = match &c.cursor {
+    CursorSpec::Null => None,
+    CursorSpec::Pages(n) => Some(cursor_after(h, c.query.as_deref().unwrap_or(b"a"), c.limit, *n)?),
+    CursorSpec::Other(q) => Some(cursor_after(h, q.as_bytes(), 1, 1)?),
+  };
+  let aggs = c.aggs.as_ref().map(|a| a.as_bytes().to_vec());
+  let aggs_len = match (&aggs, &c.aggs_len) {
+    (None, _) => c.null_aggs_len,
+    (Some(a), AggsLen::Full) => a.len(),
+    (Some(_), AggsLen::Zero) => 0,
+    (Some(a), AggsLen::Short(n)) => (*n).min(a.len()),
+  };
+  Ok(Resolved { query, cursor, aggs, aggs_len })
+}
+
+/// Detector self-test (never set by ./check): VERIF_C26_SELFTEST=<n> makes the harness claim a
+/// buffer n bytes larger than it is for capacities >= 1, so that the callee overruns it; the run
+/// must then report canary (n <= 64) or fault (n > 64) violations.
+fn selftest_lie(cap: usize) -> usize {
+  if cap == 0 || cap == BIG {
+    return 0;
+  }
+  std::env::var("VERIF_C26_SELFTEST").ok().and_then(|s| s.parse().ok()).unwrap_or(0)
+}
+
+/// One guarded call. Returns (ret, canary verdict, copy of the buffer).
+unsafe fn guarded_call(h: *mut IndexHandle, c: &Combo, r: &Resolved, cap: usize) -> (usize, Result<(), String>, Vec<u8>) {
+  let g = Guarded::new(cap);
+  // the aggregation bytes are handed over without a trailing NUL, at the end of their own
+  // guarded region, so that reading past aggs_len faults as well
+  let ag = r.aggs.as_ref().map(|a| {
+    let gg = Guarded::new(a.len());
+    std::ptr::copy_nonoverlapping(a.as_ptr(), gg.buf(), a.len());
+    gg
+  });
+  let ret = searchlite_search(
+    if c.null_handle { std::ptr::null_mut() } else { h },
+    r.query.as_ref().map(|q| q.as_ptr()).unwrap_or(std::ptr::null()),
+    c.limit,
+    r.cursor.as_ref().map(|q| q.as_ptr()).unwrap_or(std::ptr::null()),
+    ag.as_ref().map(|g| g.buf() as *const c_char).unwrap_or(std::ptr::null()),
+    r.aggs_len,
+    if c.null_out { std::ptr::null_mut() } else { g.buf() as *mut c_char },
+    cap + selftest_lie(cap),
+  );
+  let verdict = g.canaries_intact();
+  (ret, verdict, g.bytes().to_vec())
+}
+
+/// The oracle for one (combo, buf_cap) given the reference response `full` (large-buffer call).
+fn judge(c: &Combo, cap: usize, full: &[u8], ret: usize, canary: &Result<(), String>, buf: &[u8]) -> Result<&'static str, String> {
+  if let Err(e) = canary {
+    return Err(format!("write outside the buffer: {e}"));
+  }
+  if cap == 0 || c.null_out {
+    if ret != 0 {
+      return Err(format!("returned {ret} although {}", if cap == 0 { "buf_cap is 0" } else { "out_json_buf is null" }));
+    }
+    return Ok("no-buffer");
+  }
+  if ret > cap - 1 {
+    return Err(format!("returned {ret} > buf_cap-1 = {}", cap - 1));
+  }
+  if full.is_empty() {
+    // the request fails (status 0 with a large buffer): every capacity must give status 0
+    if ret != 0 {
+      return Err(format!("returned {ret} bytes although the same arguments with a {BIG}-byte buffer return status 0"));
+    }
+    return Ok("status-0");
+  }
+  let want = full.len().min(cap - 1);
+  if ret != want {
+    return Err(format!("returned {ret}, expected min(len(full)={}, buf_cap-1={}) = {want}", full.len(), cap - 1));
+  }
+  if buf[..ret] != full[..ret] {
+    let i = (0..ret).find(|i| buf[*i] != full[*i]).unwrap();
+    return Err(format!("bytes [0,{ret}) are not a prefix of the full response: first difference at offset {i}"));
+  }
+  if buf[ret] != 0 {
+    return Err(format!("byte at offset ret={ret} is {:#04x}, not NUL", buf[ret]));
+  }
+  Ok(if ret == full.len() { "full" } else if ret == 0 { "nul-only" } else { "truncated" })
+}
+
+/// Runs in the forked child: announce each call, make it, judge it, report.
+unsafe fn child_family(dir: &Path, c: &Combo, caps: &[usize], start: usize, fd: i32) -> ! {
+  let out = |s: String| {
+    let b = s.as_bytes();
+    let mut off = 0;
+    while off < b.len() {
+      let n = libc::write(fd, b[off..].as_ptr() as *const _, b.len() - off);
+      if n <= 0 {
+        libc::_exit(98);
+      }
+      off += n as usize;
+    }
+  };
+  libc::alarm(600);
+  let devnull = CString::new("/dev/null").unwrap();
+  let nfd = libc::open(devnull.as_ptr(), libc::O_WRONLY);
+  if nfd >= 0 {
+    libc::dup2(nfd, 2);
+  }
+  let p = CString::new(dir.to_string_lossy().to_string()).unwrap();
+  let h = searchlite_index_open(p.as_ptr(), false);
+  if h.is_null() {
+    out("E setup: searchlite_index_open returned null\n".into());
+    libc::_exit(3);
+  }
+  let r = match resolve(h, c) {
+    Ok(r) => r,
+    Err(e) => {
+      out(format!("E {e}\n"));
+      libc::_exit(3);
+    }
+  };
+  // reference: same arguments, large buffer (also guarded)
+  out("S ref\n".into());
+  let (fret, fcan, fbuf) = guarded_call(h, c, &r, BIG);
+  let full: Vec<u8> = fbuf[..fret.min(BIG)].to_vec();
+  let mut ref_problem: Option<String> = fcan.err();
+  if ref_problem.is_none() && !c.null_out {
+    match c.expect {
+      Expect::Ok => {
+        if fret == 0 {
+          ref_problem = Some("valid arguments returned status 0 with a large buffer".into());
+        } else {
+          match serde_json::from_slice::<Value>(&full) {
+            Ok(v) if v["hits"].is_array() => {}
+            Ok(_) => ref_problem = Some("response has no hits array".into()),
+            Err(e) => ref_problem = Some(format!("response with a large buffer is not JSON: {e}")),
+          }
+        }
+      }
+      Expect::Zero => {
+        if fret != 0 {
+          ref_problem = Some(format!("null/invalid argument returned {fret} instead of 0"));
+        }
+      }
+      Expect::Any => {}
+    }
+  }
+  out(format!("F {}\n", json!({"len": full.len(), "problem": ref_problem, "text": String::from_utf8_lossy(&full[..full.len().min(400)])})));
+  for (i, cap) in caps.iter().enumerate().skip(start) {
+    out(format!("S {i}\n"));
+    let (ret, can, buf) = guarded_call(h, c, &r, *cap);
+    let verdict = judge(c, *cap, &full, ret, &can, &buf);
+    match verdict {
+      Ok(class) => out(format!("R {i} ok {class}\n")),
+      Err(e) => out(format!("R {i} bad {}\n", json!({"ret": ret, "why": e}))),
+    }
+  }
+  searchlite_index_close(h);
+  libc::_exit(0);
+}
+
+/// Null checks of the other entry points (mechanism: searchlite_index_open/close/add_json/commit).
+unsafe fn child_misc(dir: &Path, fd: i32) -> ! {
+  let out = |s: String| {
+    let b = s.as_bytes();
+    if libc::write(fd, b.as_ptr() as *const _, b.len()) <= 0 {
+      libc::_exit(98);
+    }
+  };
+  libc::alarm(60);
+  let devnull = CString::new("/dev/null").unwrap();
+  let nfd = libc::open(devnull.as_ptr(), libc::O_WRONLY);
+  if nfd >= 0 {
+    libc::dup2(nfd, 2);
+  }
+  let mut i = 0;
+  let mut step = |name: &str, f: &mut dyn FnMut() -> Result<(), String>| {
+    out(format!("S {i} {name}\n"));
+    match f() {
+      Ok(()) => out(format!("R {i} ok misc\n")),
+      Err(e) => out(format!("R {i} bad {}\n", json!({"why": format!("{name}: {e}")}))),
+    }
+    i += 1;
+  };
+  let p = CString::new(dir.to_string_lossy().to_string()).unwrap();
+  let missing = CString::new(dir.join("no-such-index").to_string_lossy().to_string()).unwrap();
+  let docj = CString::new(r#"{"_id":"Z","body":"z"}"#).unwrap();
+  step("index_open(null)", &mut || if searchlite_index_open(std::ptr::null(), true).is_null() { Ok(()) } else { Err("non-null handle".into()) });
+  step("index_open(missing, create_if_missing=false)", &mut || if searchlite_index_open(missing.as_ptr(), false).is_null() { Ok(()) } else { Err("non-null handle for a missing index".into()) });
+  step("index_close(null)", &mut || {
+    searchlite_index_close(std::ptr::null_mut());
+    Ok(())
+  });
+  step("commit(null)", &mut || {
+    let rc = searchlite_commit(std::ptr::null_mut());
+    if rc < 0 { Ok(()) } else { Err(format!("status {rc}, expected negative")) }
+  });
+  step("add_json(null handle)", &mut || {
+    let rc = searchlite_add_json(std::ptr::null_mut(), docj.as_ptr(), docj.as_bytes().len());
+    if rc < 0 { Ok(()) } else { Err(format!("status {rc}, expected negative")) }
+  });
+  let h = searchlite_index_open(p.as_ptr(), false);
+  step("add_json(null json)", &mut || {
+    let rc = searchlite_add_json(h, std::ptr::null(), 0);
+    if rc < 0 { Ok(()) } else { Err(format!("status {rc}, expected negative")) }
+  });
+  for bad in ["not json", "[1,2]", "{\"body\":\"no id\"}", ""] {
+    let s = CString::new(bad).unwrap();
+    step(&format!("add_json(invalid document {bad:?})"), &mut || {
+      let rc = searchlite_add_json(h, s.as_ptr(), s.as_bytes().len());
+      if rc < 0 { Ok(()) } else { Err(format!("status {rc}, expected negative")) }
+    });
+  }
+  searchlite_index_close(h);
+  libc::_exit(0);
+}
+
+// ---------------------------------------------------------------------------------------------
+// Parent side
+
+#[derive(Debug, Default)]
+struct FamilyResult {
+  /// (case index, why, ret)
+  bad: Vec<(usize, String, Option<u64>)>,
+  classes: BTreeMap<String, u64>,
+  done: usize,
+  full_len: usize,
+  full_text: String,
+  ref_problem: Option<String>,
+  /// child died: (signal or exit code description, announced case)
+  died: Option<(String, String)>,
+  setup_error: Option<String>,
+}
+
+fn describe_status(status: i32) -> String {
+  if libc::WIFSIGNALED(status) {
+    let s = libc::WTERMSIG(status);
+    let name = match s {
+      libc::SIGSEGV => "SIGSEGV",
+      libc::SIGBUS => "SIGBUS",
+      libc::SIGABRT => "SIGABRT",
+      libc::SIGALRM => "SIGALRM (hang)",
+      libc::SIGILL => "SIGILL",
+      _ => "signal",
+    };
+    format!("killed by {name} ({s})")
+  } else if libc::WEXITSTATUS(status) != 0 {
+    format!("exit {}", libc::WEXITSTATUS(status))
+  } else {
+    String::new()
+  }
+}
+
+/// Fork one child per job (at most `par` alive at a time; all forks are issued from the calling
+/// thread). Each child gets an append-only file descriptor to report through, so what it wrote
+/// survives its death. Returns (report text, how it ended: "" = exit 0) per job.
+fn fork_batch(njobs: usize, par: usize, tmp: &Path, child: &dyn Fn(usize, i32)) -> Vec<(String, String)> {
+  let mut how: Vec<String> = vec![String::new(); njobs];
+  let mut alive: BTreeMap<i32, usize> = BTreeMap::new();
+  let file_of = |j: usize| tmp.join(format!("job{j}.out"));
+  let reap = |alive: &mut BTreeMap<i32, usize>, how: &mut Vec<String>| unsafe {
+    let mut status = 0i32;
+    let pid = libc::waitpid(-1, &mut status, 0);
+    if pid < 0 {
+      vcore::ev::machinery_failure("waitpid failed");
+    }
+    if let Some(j) = alive.remove(&pid) {
+      how[j] = describe_status(status);
+    }
+  };
+  for j in 0..njobs {
+    while alive.len() >= par.max(1) {
+      reap(&mut alive, &mut how);
+    }
+    let path = CString::new(file_of(j).to_string_lossy().to_string()).unwrap();
+    unsafe {
+      let fd = libc::open(path.as_ptr(), libc::O_WRONLY | libc::O_CREAT | libc::O_TRUNC | libc::O_APPEND, 0o600);
+      if fd < 0 {
+        vcore::ev::machinery_failure("cannot create child report file");
+      }
+      let pid = libc::fork();
+      if pid < 0 {
+        vcore::ev::machinery_failure("fork failed");
+      }
+      if pid == 0 {
+        child(j, fd);
+        libc::_exit(96);
+      }
+      libc::close(fd);
+      alive.insert(pid, j);
+    }
+  }
+  while !alive.is_empty() {
+    reap(&mut alive, &mut how);
+  }
+  (0..njobs)
+    .map(|j| {
+      let raw = std::fs::read(file_of(j)).unwrap_or_default();
+      let _ = std::fs::remove_file(file_of(j));
+      (String::from_utf8_lossy(&raw).to_string(), std::mem::take(&mut how[j]))
+    })
+    .collect()
+}
+
+fn parse_family(text: &str, how: &str, res: &mut FamilyResult) -> Option<usize> {
+  let mut announced: Option<String> = None;
+  let mut last_started: Option<usize> = None;
+  for line in text.lines() {
+    if let Some(rest) = line.strip_prefix("S ") {
+      announced = Some(rest.to_string());
+      last_started = rest.split(' ').next().and_then(|x| x.parse().ok());
+    } else if let Some(rest) = line.strip_prefix("F ") {
+      announced = None;
+      if let Ok(v) = serde_json::from_str::<Value>(rest) {
+        res.full_len = v["len"].as_u64().unwrap_or(0) as usize;
+        res.full_text = v["text"].as_str().unwrap_or("").to_string();
+        res.ref_problem = v["problem"].as_str().map(|s| s.to_string());
+      }
+    } else if let Some(rest) = line.strip_prefix("R ") {
+      announced = None;
+      let mut it = rest.splitn(3, ' ');
+      let i: usize = it.next().and_then(|x| x.parse().ok()).unwrap_or(0);
+      let st = it.next().unwrap_or("");
+      let tail = it.next().unwrap_or("");
+      res.done += 1;
+      if st == "ok" {
+        *res.classes.entry(tail.to_string()).or_insert(0) += 1;
+      } else {
+        let v: Value = serde_json::from_str(tail).unwrap_or(json!({"why": tail}));
+        res.bad.push((i, v["why"].as_str().unwrap_or("").to_string(), v["ret"].as_u64()));
+      }
+    } else if let Some(rest) = line.strip_prefix("E ") {
+      res.setup_error = Some(rest.to_string());
+    }
+  }
+  if !how.is_empty() && res.setup_error.is_none() {
+    if how == "exit 97" || how == "exit 98" {
+      vcore::ev::machinery_failure(&format!("child machinery failure ({how})"));
+    }
+    if let Some(a) = announced {
+      res.died = Some((how.to_string(), a));
+      return last_started.map(|i| i + 1).or(Some(usize::MAX));
+    }
+    res.died = Some((how.to_string(), "<between calls>".into()));
+  }
+  None
+}
+
+struct Job<'a> {
+  dir: &'a Path,
+  world: usize,
+  combo: &'a Combo,
+  caps: Vec<usize>,
+}
+
+/// Run every job (one combo over its capacities), restarting behind a call that killed the child.
+fn run_families(jobs: &[Job], tmp: &Path) -> Vec<(FamilyResult, Vec<(String, String)>)> {
+  let mut out: Vec<(FamilyResult, Vec<(String, String)>)> = jobs.iter().map(|_| (FamilyResult::default(), Vec::new())).collect();
+  let mut todo: Vec<(usize, usize)> = (0..jobs.len()).map(|j| (j, 0)).collect();
+  while !todo.is_empty() {
+    let results = fork_batch(todo.len(), vcore::threads(), tmp, &|k, fd| unsafe {
+      let (j, start) = todo[k];
+      child_family(jobs[j].dir, jobs[j].combo, &jobs[j].caps, start, fd)
+    });
+    let mut next = Vec::new();
+    for (k, (text, how)) in results.into_iter().enumerate() {
+      let (j, _) = todo[k];
+      let (res, deaths) = &mut out[j];
+      res.died = None;
+      let restart = parse_family(&text, &how, res);
+      if let Some(d) = res.died.take() {
+        deaths.push(d);
+      }
+      if let Some(n) = restart {
+        if n < jobs[j].caps.len() && deaths.len() < 4 {
+          next.push((j, n));
+        }
+      }
+    }
+    todo = next;
+  }
+  out
+}
+
+fn caps_for(full_len: usize) -> Vec<usize> {
+  (0..=full_len + MARGIN).collect()
+}
+
+struct Outcome {
+  evals: u64,
+  nontrivial: u64,
+  classes: BTreeMap<String, u64>,
+  failures: Vec<(String, Value)>,
+  sample: Value,
+}
+
+/// Everything for a list of (world, combo): reference probes, then the capacity sweeps.
+fn check_combos(items: &[(usize, &Path, &Combo)], tmp: &Path, only_cap: Option<usize>) -> Vec<Outcome> {
+  let mut outs: Vec<Outcome> = items.iter().map(|_| Outcome { evals: 0, nontrivial: 0, classes: BTreeMap::new(), failures: vec![], sample: Value::Null }).collect();
+  let case = |i: usize, cap: Option<usize>| json!({"world": items[i].0, "combo": items[i].2.to_json(), "buf_cap": cap});
+  // probes (no capacities) to learn len(full)
+  let probes_jobs: Vec<Job> = items.iter().map(|(w, d, c)| Job { dir: d, world: *w, combo: c, caps: vec![] }).collect();
+  let probes = run_families(&probes_jobs, tmp);
+  let mut sweep_jobs: Vec<Job> = Vec::new();
+  let mut sweep_of: Vec<usize> = Vec::new();
+  let mut full_len: Vec<usize> = vec![0; items.len()];
+  let mut full_text: Vec<String> = vec![String::new(); items.len()];
+  for (i, (probe, deaths)) in probes.into_iter().enumerate() {
+    let (world, dir, c) = items[i];
+    let o = &mut outs[i];
+    if let Some(e) = probe.setup_error {
+      vcore::ev::machinery_failure(&format!("C26 setup for combo {}: {e}", c.name));
+    }
+    o.evals += 1;
+    if let Some((how, at)) = deaths.first() {
+      o.failures.push((format!("combo {} world {world}: child {how} during call `{at}` with a {BIG}-byte buffer; args {}", c.name, c.to_json()), case(i, Some(BIG))));
+      continue;
+    }
+    if let Some(p) = &probe.ref_problem {
+      o.failures.push((format!("combo {} world {world}: {p}; args {}", c.name, c.to_json()), case(i, Some(BIG))));
+    }
+    full_len[i] = probe.full_len;
+    full_text[i] = probe.full_text;
+    let caps = match only_cap {
+      Some(c) if c == BIG => vec![],
+      Some(c) => vec![c],
+      None => caps_for(probe.full_len),
+    };
+    sweep_jobs.push(Job { dir, world, combo: c, caps });
+    sweep_of.push(i);
+  }
+  let sweeps = run_families(&sweep_jobs, tmp);
+  for (k, (res, deaths)) in sweeps.into_iter().enumerate() {
+    let i = sweep_of[k];
+    let job = &sweep_jobs[k];
+    let (world, c) = (job.world, job.combo);
+    let o = &mut outs[i];
+    o.evals += res.done as u64;
+    for (how, at) in deaths {
+      let idx: Option<usize> = at.split(' ').next().and_then(|x| x.parse().ok());
+      let cap = idx.and_then(|i| job.caps.get(i).copied());
+      o.failures.push((format!("combo {} world {world}: child {how} during searchlite_search with buf_cap={cap:?} (len(full)={}); args {}", c.name, full_len[i], c.to_json()), case(i, cap)));
+    }
+    for (ci, why, ret) in res.bad.iter().take(3) {
+      o.failures.push((format!("combo {} world {world} buf_cap={} (len(full)={}): {why} (ret={ret:?}); args {}", c.name, job.caps[*ci], full_len[i], c.to_json()), case(i, Some(job.caps[*ci]))));
+    }
+    o.nontrivial = res.classes.get("truncated").copied().unwrap_or(0) + res.classes.get("nul-only").copied().unwrap_or(0);
+    o.classes = res.classes;
+    o.sample = json!({"world": world, "combo": c.name, "len_full": full_len[i], "caps": format!("0..={}", full_len[i] + MARGIN), "full_head": full_text[i].chars().take(120).collect::<String>()});
+  }
+  outs
+}
+
+fn classify(_what: &str) -> Option<&'static str> {
+  // no genuine defect of searchlite_search's buffer handling is known on the reference tree
+  None
+}
+
+fn setup_worlds(n: usize) -> (Scratch, Vec<PathBuf>) {
+  let sc = Scratch::new("c26");
+  let mut dirs = Vec::new();
+  for w in 0..n {
+    let d = sc.sub(&format!("w{w}"));
+    if let Err(e) = prepare_world(&d, w) {
+      vcore::ev::machinery_failure(&format!("C26 world {w}: {e}"));
+    }
+    dirs.push(d);
+  }
+  (sc, dirs)
+}
+
+pub fn run(ctx: &Ctx) -> i32 {
+  let mut rep = Reporter::new("C26", ctx.tier, "exploration");
+  let quick = ctx.tier.is_quick();
+  if let Some(path) = &ctx.replay {
+    rep.set_replaying(true);
+    let v: Value = serde_json::from_slice(&std::fs::read(path).expect("replay file")).expect("json");
+    let cs = &v["case"];
+    if cs["misc"].as_bool() == Some(true) {
+      let (sc, dirs) = setup_worlds(1);
+      let run = || {
+        let (text, how) = fork_batch(1, 1, &sc.path, &|_, fd| unsafe { child_misc(&dirs[0], fd) }).remove(0);
+        let mut r = FamilyResult::default();
+        parse_family(&text, &how, &mut r);
+        r.bad.first().map(|b| b.1.clone()).or(r.died.map(|d| format!("child {} during {}", d.0, d.1)))
+      };
+      let (a, b) = (run(), run());
+      if a.is_some() != b.is_some() {
+        vcore::ev::machinery_failure("NONDETERMINISM on replay");
+      }
+      return match a {
+        Some(w) => {
+          println!("VIOLATION property=C26 replay={path}\n  what: {w}");
+          1
+        }
+        None => {
+          println!("replay: no violation");
+          0
+        }
+      };
+    }
+    let world = cs["world"].as_u64().unwrap_or(0) as usize;
+    let c = Combo::from_json(&cs["combo"]);
+    let cap = cs["buf_cap"].as_u64().map(|x| x as usize);
+    let (sc, dirs) = setup_worlds(world + 1);
+    let run = || -> Option<String> {
+      let o = check_combos(&[(world, dirs[world].as_path(), &c)], &sc.path, Some(cap.unwrap_or(BIG)));
+      o[0].failures.first().map(|f| f.0.clone())
+    };
+    let (a, b) = (run(), run());
+    if a.is_some() != b.is_some() {
+      vcore::ev::machinery_failure("NONDETERMINISM on replay");
+    }
+    return match a {
+      Some(w) => {
+        println!("VIOLATION property=C26 replay={path}\n  what: {w}");
+        1
+      }
+      None => {
+        println!("replay: no violation");
+        0
+      }
+    };
+  }
+
+  let nworlds = if quick { 1 } else { 3 };
+  let (sc, dirs) = setup_worlds(nworlds);
+  let cs = combos(!quick);
+  let mut classes: BTreeMap<String, u64> = BTreeMap::new();
+  let mut nontrivial = 0u64;
+  let mut sweeps = 0u64;
+  let mut combo_names: BTreeSet<String> = BTreeSet::new();
+  // forks are issued from this thread only (the rayon pool is idle); children run concurrently
+  let mut items: Vec<(usize, &Path, &Combo)> = Vec::new();
+  for (w, dir) in dirs.iter().enumerate() {
+    for (ci, c) in cs.iter().enumerate() {
+      // the multi-page world takes the 8 base (query, cursor, aggs) combinations only
+      if w == 2 && ci >= 8 {
+        continue;
+      }
+      items.push((w, dir.as_path(), c));
+    }
+  }
+  let outs = check_combos(&items, &sc.path, None);
+  for ((_, _, c), o) in items.iter().zip(outs) {
+    rep.add_evals(o.evals);
+    nontrivial += o.nontrivial;
+    sweeps += 1;
+    combo_names.insert(c.name.to_string());
+    for (k, v) in o.classes {
+      *classes.entry(k).or_insert(0) += v;
+    }
+    for (what, case) in o.failures {
+      rep.fail(classify(&what), &what, case);
+    }
+    if matches!(c.name, "qs" | "page2-aggs" | "aggs-short-half" | "null-handle") {
+      rep.sample(o.sample);
+    }
+  }
+  // null checks of the other entry points
+  {
+    let (text, how) = fork_batch(1, 1, &sc.path, &|_, fd| unsafe { child_misc(&dirs[0], fd) }).remove(0);
+    let mut r = FamilyResult::default();
+    parse_family(&text, &how, &mut r);
+    rep.add_evals(r.done as u64);
+    for (k, v) in r.classes {
+      *classes.entry(k).or_insert(0) += v;
+    }
+    for (_, why, _) in &r.bad {
+      rep.fail(None, &format!("entry-point null/invalid check: {why}"), json!({"misc": true}));
+    }
+    if let Some((how, at)) = r.died {
+      rep.fail(None, &format!("entry-point null/invalid check: child {how} during `{at}`"), json!({"misc": true}));
+    }
+  }
+  if classes.len() < 2 {
+    vcore::ev::machinery_failure("C26 vacuous: fewer than 2 distinct outcomes");
+  }
+  let cov = vcore::cov! {
+    "distinct_nontrivial" => nontrivial,
+    "rule" => "case = (world, argument combination, buf_cap) with buf_cap ranging over EVERY value 0..=len(full)+16; non-trivial = the response is actually truncated (0 < buf_cap <= len(full)). Oracle per call: both 64-byte canaries intact and no fault (PROT_NONE pages on both sides; aggregation bytes sit at the end of their own guarded region without NUL); ret <= buf_cap-1; ret == min(len(full), buf_cap-1); bytes [0,ret) equal the large-buffer response; byte ret is NUL; buf_cap 0 / null out buffer / null handle / null query / unparsable or cut-short aggregation JSON => status 0; if the large-buffer call gives 0 every capacity gives 0.",
+    "worlds" => nworlds,
+    "combinations" => cs.len(),
+    "combination_names" => combo_names,
+    "capacity_sweeps" => sweeps,
+    "outcome_classes" => classes,
+    "distinct_observed_outcomes" => classes.len(),
+    "exhaustive" => true,
+  };
+  rep.finish(cov, vec![
+    "cursor arguments are only strings produced by a previous response (documented precondition); arbitrary cursor bytes are C16's subject".into(),
+    "buf_cap never exceeds the real size of the buffer handed over; aggs_len never exceeds the readable bytes (documented preconditions)".into(),
+    "with status 0 the buffer content is unspecified (the code leaves it untouched); only canaries and the status are checked".into(),
+    "limit 0, a foreign cursor, unknown fields and empty / non-UTF-8 queries may succeed or fail: only consistency with the large-buffer call and buffer safety are demanded".into(),
+    "searchlite_add_json's json_len parameter is ignored by the implementation and documented as a NUL-terminated string; not varied".into(),
+  ])
 }
